@@ -29,8 +29,8 @@ func init() {
 			"negative radius and invalid zoom are errors. Non-trivial = radius > 0; distinct by (points, zooms, radius).",
 		Assume: []string{"distance oracle is one-sided (the library's GJK distance over-estimates, so it may exclude close voxels; it must never include a far one)",
 			"independent ECEF conversion (a=6378137, 1/f=298.257223563); tolerance 1e-4 relative absorbs the library's use of latitude as ellipsoidal height (<= 85 m)"},
-		N:       tierN(12_000, 600_000),
-		Batch:   func(t string) int64 { return tierN(12_000, 600_000)(t)/32 + 1 },
+		N:       tierN(20_000, 600_000),
+		Batch:   func(t string) int64 { return tierN(20_000, 600_000)(t)/32 + 1 },
 		Timeout: func(t string) int { return map[string]int{"quick": 300, "thorough": 2400}[t] },
 		Floor:   tierN(50, 1000),
 		Run:     runC14,
